@@ -24,6 +24,7 @@ def parseScalar (t : String) : Option Val :=
   | ["E", h] => (ofHex h).map .err
   | ["Y", h] => (ofHex h).map .bytes
   | ["X", h] => (ofHex h).map .fallback
+  | ["M", t, fb] => do let t ← ofHex t; let fb ← ofHex fb; pure (.textm t fb)
   | ["SS", l] => (hexList l).map .strs
   | ["BS", l] => (if l.isEmpty then some [] else (l.splitOn ",").mapM parseBool).map .bools
   | ["IS", l] => (if l.isEmpty then some [] else (l.splitOn ",").mapM String.toInt?).map .ints
